@@ -2,6 +2,7 @@ import RzilVerif.Lemmas.SemStmtT2
 import RzilVerif.Lemmas.SemIncl
 import RzilVerif.Lemmas.BareImm
 import RzilVerif.Props.C01
+import RzilVerif.Model.DriverSem
 /-!
 # T2-semantic: the lowering as coded is correct on the SEMANTIC carve-out
 
@@ -30,27 +31,28 @@ open C05
 
 /-! ## the simulation: induction on the C execution, with the lowering AS CODED and the repaired one side by side -/
 
-section Main
-variable {ms : MacroSem} (hms : MsOK ms) {c : Ctx} (hc : c.ok = true) (env : CEnv)
-include hms hc
+section MainLow
+variable {ms : MacroSem} (hms : MsOK ms) {lb : Bool} (hlb : lb = true → MsLow ms) {c : Ctx} (hc : c.ok = true) (env : CEnv)
+include hms hlb hc
 
-/-- Induction on the C fuel.  For statements, statement lists and loops: the repaired lowering succeeds too (with the
+/-- (General form: carve-out with the low-bits flag `lb`, hypothesis `lb = true → MsLow ms`; `stmt_main_sem` below is the
+    instance `lb = false`.)  Induction on the C fuel.  For statements, statement lists and loops: the repaired lowering succeeds too (with the
     same `TSt`), and from related states both effects run to ONE IL state, related to the final C state.
     (`Inv`: the two-state invariant of `Lemmas/StmtState.lean`; the IL local of an immediate letter holds the C side's
     CURRENT immediate, the `imm` components themselves are not related.) -/
-theorem stmt_main_sem : ∀ f : Nat,
-    (∀ s st eff st' σC σIL σC', compileStmt (codeEnv env) st s = .ok (eff, st') → CarveSSem env s = true →
+theorem stmt_main_sem_low : ∀ f : Nat,
+    (∀ s st eff st' σC σIL σC', compileStmt (codeEnv env) st s = .ok (eff, st') → CarveSSem env s lb = true →
         WFStmt c s = true → (exprsOf s).all (WFES c) = true → Inv c σC σIL → execC ms f s σC = .ok σC' →
         ∃ ef, compileStmt (fixedEnv env) st s = .ok (ef, st') ∧
           ∃ σIL', ExecIL ms eff σIL σIL' ∧ ExecIL ms ef σIL σIL' ∧ Inv c σC' σIL') ∧
-    (∀ ss st effs st' σC σIL σC', compileStmts (codeEnv env) st ss = .ok (effs, st') → CarveSsSem env ss = true →
+    (∀ ss st effs st' σC σIL σC', compileStmts (codeEnv env) st ss = .ok (effs, st') → CarveSsSem env ss lb = true →
         WFStmts c ss = true → (exprsOfList ss).all (WFES c) = true → Inv c σC σIL → execCs ms f ss σC = .ok σC' →
         ∃ efs, compileStmts (fixedEnv env) st ss = .ok (efs, st') ∧
           ∃ σIL', ExecSeqIL ms effs σIL σIL' ∧ ExecSeqIL ms efs σIL σIL' ∧ Inv c σC' σIL') ∧
     (∀ v cond body st bs bsf st' cc fc stepE loopBody loopBodyF σC σIL σC', compileExpr (codeEnv env) cond = .ok cc →
-        compileExpr (fixedEnv env) cond = .ok fc → CarveESem env.assigned cond = true → condOK fc = true →
+        compileExpr (fixedEnv env) cond = .ok fc → CarveCSem env cond lb = true →
         compileStmts (codeEnv env) st body = .ok (bs, st') → compileStmts (fixedEnv env) st body = .ok (bsf, st') →
-        CarveSsSem env body = true →
+        CarveSsSem env body lb = true →
         LoopShape ms c v 0 bs stepE loopBody → LoopShape ms c v 0 bsf stepE loopBodyF →
         WFStmts c body = true → (cond :: exprsOfList body).all (WFES c) = true → Inv c σC σIL →
         loopC ms f v cond 0 body σC = .ok σC' →
@@ -64,7 +66,7 @@ theorem stmt_main_sem : ∀ f : Nat,
     refine ⟨?_, ?_, ?_⟩
     · intro s st eff st' σC σIL σC' _ _ _ _ _ h; simp [execC] at h
     · intro ss st effs st' σC σIL σC' _ _ _ _ _ h; simp [execCs] at h
-    · intro v cond body st bs bsf st' cc fc stepE loopBody loopBodyF σC σIL σC' _ _ _ _ _ _ _ _ _ _ _ _ h
+    · intro v cond body st bs bsf st' cc fc stepE loopBody loopBodyF σC σIL σC' _ _ _ _ _ _ _ _ _ _ _ h
       simp [loopC] at h
   | succ f ih =>
     obtain ⟨ihE, ihS, ihL⟩ := ih
@@ -84,7 +86,7 @@ theorem stmt_main_sem : ∀ f : Nat,
         | some e =>
           have hwe : WFES c e = true := by
             simpa only [exprsOf, List.all_cons, List.all_nil, Bool.and_true] using hwfe
-          obtain ⟨⟨ef, stf⟩, hF, hst, heq⟩ := (decl_sem hms hinv.inv env st t n e hcarve hwe).ok_left hcomp
+          obtain ⟨⟨ef, stf⟩, hF, hst, heq⟩ := (decl_sem hms hlb hinv.inv env st t n e hcarve hwe).ok_left hcomp
           simp only at hst; subst hst
           obtain ⟨σIL', hx, hinv'⟩ := decl_correct hE henv hc hF hwf (WFHyp_of_static hwfe) hinv hex
           exact ⟨ef, hF, σIL', ExecIL_of_EEqAt (heq []).symm hx, hx, hinv'⟩
@@ -96,21 +98,21 @@ theorem stmt_main_sem : ∀ f : Nat,
           split at hwfe <;> simp only [List.all_cons, List.all_nil, Bool.and_true, Bool.and_eq_true] at hwfe
           · exact hwfe
           · exact hwfe.2
-        obtain ⟨⟨ef, stf⟩, hF, hst, heq⟩ := (assign_sem hms hinv.inv env st lhs op e hcarve hl hwe).ok_left hcomp
+        obtain ⟨⟨ef, stf⟩, hF, hst, heq⟩ := (assign_sem hms hlb hinv.inv env st lhs op e hcarve hl hwe).ok_left hcomp
         simp only at hst; subst hst
         obtain ⟨σIL', hx, hinv'⟩ := assign_correct hE henv hc hF hwf (WFHyp_of_static hwfe) hinv hex
         exact ⟨ef, hF, σIL', ExecIL_of_EEqAt (heq []).symm hx, hx, hinv'⟩
       | store w e =>
         have hwe : WFES c e = true := by
           simpa only [exprsOf, List.all_cons, List.all_nil, Bool.and_true] using hwfe
-        obtain ⟨⟨ef, stf⟩, hF, hst, heq⟩ := (store_sem hms hinv.inv env st w e hcarve hwe).ok_left hcomp
+        obtain ⟨⟨ef, stf⟩, hF, hst, heq⟩ := (store_sem hms hlb hinv.inv env st w e hcarve hwe).ok_left hcomp
         simp only at hst; subst hst
         obtain ⟨σIL', hx, hinv'⟩ := store_correct hE henv hF hwf (WFHyp_of_static hwfe) hinv hex
         exact ⟨ef, hF, σIL', ExecIL_of_EEqAt (heq []).symm hx, hx, hinv'⟩
       | jump e =>
         have hwe : WFES c e = true := by
           simpa only [exprsOf, List.all_cons, List.all_nil, Bool.and_true] using hwfe
-        obtain ⟨⟨ef, stf⟩, hF, hst, heq⟩ := (jump_sem hms hc hinv.inv env st e hcarve hwe).ok_left hcomp
+        obtain ⟨⟨ef, stf⟩, hF, hst, heq⟩ := (jump_sem hms hlb hc hinv.inv env st e hcarve hwe).ok_left hcomp
         simp only at hst; subst hst
         obtain ⟨σIL', hx, hinv'⟩ := jump_correct hE henv hc hF hwf (WFHyp_of_static hwfe) hinv hex
         exact ⟨ef, hF, σIL', ExecIL_of_EEqAt (heq []).symm hx, hx, hinv'⟩
@@ -127,7 +129,7 @@ theorem stmt_main_sem : ∀ f : Nat,
       | exprstmt e =>
         -- a bare pure value: both lowerings compile it (they fail together, `stmt_state_sem`) and emit nothing;
         -- C evaluates and discards it
-        obtain ⟨⟨ef, stf⟩, hFs, hst⟩ := (stmt_state_sem hms hc hinv.inv env _ st hcarve hwf hwfe).ok_left hcomp
+        obtain ⟨⟨ef, stf⟩, hFs, hst⟩ := (stmt_state_sem hms hlb hc hinv.inv env _ st hcarve hwf hwfe).ok_left hcomp
         simp only [TStRel] at hst; subst hst
         have h1 := compileStmt_bare (s := .exprstmt e) rfl hcomp
         have h2 := compileStmt_bare (s := .exprstmt e) rfl hFs
@@ -141,7 +143,7 @@ theorem stmt_main_sem : ∀ f : Nat,
       | vcall n x a p => simp [WFStmt] at hwf
       | ite cnd t e =>
         -- the repaired lowering of the whole statement
-        obtain ⟨⟨ef, stf⟩, hFs, hst⟩ := (stmt_state_sem hms hc hinv.inv env _ st hcarve hwf hwfe).ok_left hcomp
+        obtain ⟨⟨ef, stf⟩, hFs, hst⟩ := (stmt_state_sem hms hlb hc hinv.inv env _ st hcarve hwf hwfe).ok_left hcomp
         simp only [TStRel] at hst; subst hst
         refine ⟨ef, hFs, ?_⟩
         cases e with
@@ -161,10 +163,9 @@ theorem stmt_main_sem : ∀ f : Nat,
           clear hex hex1
           simp only [WFStmt, Bool.and_eq_true] at hwf
           simp only [CarveSSem, Bool.and_eq_true] at hcarve
-          obtain ⟨⟨⟨hcx, hcok⟩, hct⟩, _⟩ := hcarve
+          obtain ⟨⟨hcx, hct⟩, _⟩ := hcarve
           simp only [exprsOf, List.all_cons, List.all_append, Bool.and_eq_true] at hwfe
-          obtain ⟨fc', hF', hpe⟩ := cond_sem hms hinv.inv env cnd hcx hwfe.1 hcc
-            (fun fc hf => by rw [hf] at hcok; exact hcok)
+          obtain ⟨fc', hF', hpe⟩ := cond_sem hms hlb hinv.inv env cnd hcx hwfe.1 hcc
           rw [hF] at hF'; cases hF'
           have hsim := expr_sim hE henv (hinv.rel.agreeOn _ _ _) hinv.inv hinv.immVal
             (WFHyp_of_static (by simp only [List.all_cons, List.all_nil, Bool.and_true]; exact hwfe.1)) hvc hF
@@ -202,10 +203,9 @@ theorem stmt_main_sem : ∀ f : Nat,
           clear hex hex1
           simp only [WFStmt, Bool.and_eq_true] at hwf
           simp only [CarveSSem, Bool.and_eq_true] at hcarve
-          obtain ⟨⟨⟨hcx, hcok⟩, hct⟩, hce⟩ := hcarve
+          obtain ⟨⟨hcx, hct⟩, hce⟩ := hcarve
           simp only [exprsOf, List.all_cons, List.all_append, Bool.and_eq_true] at hwfe
-          obtain ⟨fc', hF', hpe⟩ := cond_sem hms hinv.inv env cnd hcx hwfe.1 hcc
-            (fun fc hf => by rw [hf] at hcok; exact hcok)
+          obtain ⟨fc', hF', hpe⟩ := cond_sem hms hlb hinv.inv env cnd hcx hwfe.1 hcc
           rw [hF] at hF'; cases hF'
           have hsim := expr_sim hE henv (hinv.rel.agreeOn _ _ _) hinv.inv hinv.immVal
             (WFHyp_of_static (by simp only [List.all_cons, List.all_nil, Bool.and_true]; exact hwfe.1)) hvc hF
@@ -213,7 +213,7 @@ theorem stmt_main_sem : ∀ f : Nat,
           have hcond := hpe.symm.ok hcondF
           -- the two lowerings of the first arm leave the same `TSt`
           have hst1 : st1f = st1 := by
-            obtain ⟨⟨tsf', st1'⟩, h1, h2⟩ := (stmts_state_sem hms hc hinv.inv env t _ hct hwf.1 hwfe.2.1).ok_left hts
+            obtain ⟨⟨tsf', st1'⟩, h1, h2⟩ := (stmts_state_sem hms hlb hc hinv.inv env t _ hct hwf.1 hwfe.2.1).ok_left hts
             simp only [TStsRel] at h2; subst h2
             rw [htsf] at h1
             simp only [Except.ok.injEq, Prod.mk.injEq] at h1
@@ -237,11 +237,11 @@ theorem stmt_main_sem : ∀ f : Nat,
             obtain ⟨rfl, _⟩ := hesf'
             exact ⟨σIL', ExecIL_branch hcond (mkSeq_exec.2 hx), ExecIL_branch hcondF (mkSeq_exec.2 hxF), hinv'⟩
       | for_ v cnd step body =>
-        obtain ⟨⟨ef, stf⟩, hFs, hst⟩ := (stmt_state_sem hms hc hinv.inv env _ st hcarve hwf hwfe).ok_left hcomp
+        obtain ⟨⟨ef, stf⟩, hFs, hst⟩ := (stmt_state_sem hms hlb hc hinv.inv env _ st hcarve hwf hwfe).ok_left hcomp
         simp only [TStRel] at hst; subst hst
         refine ⟨ef, hFs, ?_⟩
         simp only [CarveSSem, Bool.and_eq_true, beq_iff_eq] at hcarve
-        obtain ⟨⟨⟨hstep, hcx⟩, hcok⟩, hcb⟩ := hcarve
+        obtain ⟨⟨hstep, hcx⟩, hcb⟩ := hcarve
         subst hstep
         simp only [execC] at hex
         simp only [WFStmt, Bool.and_eq_true] at hwf
@@ -274,8 +274,7 @@ theorem stmt_main_sem : ∀ f : Nat,
               .setl v (.inc (.varl v) 32)]]) :=
             { body := fun σ σ1 σ2 h1 h2 => ExecIL_seqn.2 (ExecSeqIL_cons (mkSeq_exec.2 h1) (ExecSeqIL_cons h2 ExecSeqIL_nil))
               step := fun σC1 σIL1 w x hi hl => for_step_correct (ms := ms) hc hi hvt hv (isTmp_tmp _) hl }
-          have hcokf : condOK fc = true := by rw [hF] at hcok; exact hcok
-          obtain ⟨σIL', hx, hxF, hinv'⟩ := ihL v cnd body _ bs bsf _ cc fc _ _ _ _ σIL0 σC' hcc hF hcx hcokf hbs hbsf hcb
+          obtain ⟨σIL', hx, hxF, hinv'⟩ := ihL v cnd body _ bs bsf _ cc fc _ _ _ _ σIL0 σC' hcc hF hcx hbs hbsf hcb
             hshape hshapeF hwfb hwfe hinv0 hex
           exact ⟨σIL', ExecIL_seqn.2 (ExecSeqIL_cons hx0 (ExecSeqIL_cons hx ExecSeqIL_nil)),
             ExecIL_seqn.2 (ExecSeqIL_cons hx0 (ExecSeqIL_cons hxF ExecSeqIL_nil)), hinv'⟩
@@ -315,7 +314,7 @@ theorem stmt_main_sem : ∀ f : Nat,
             have := ExecIL_det hx1 ExecIL_empty
             subst this
             exact ⟨σIL2, hx2, hx2F, hinv2⟩
-    · intro v cond body st bs bsf st' cc fc stepE loopBody loopBodyF σC σIL σC' hcc hF hcx hcok hbs hbsf hcb hshape hshapeF
+    · intro v cond body st bs bsf st' cc fc stepE loopBody loopBodyF σC σIL σC' hcc hF hcx hbs hbsf hcb hshape hshapeF
         hwfb hwfe hinv hex
       rw [loopC] at hex
       obtain ⟨vc, hvc, hex1⟩ := bind_ok hex
@@ -323,8 +322,7 @@ theorem stmt_main_sem : ∀ f : Nat,
       clear hex hex1
       have hwfe' := hwfe
       simp only [List.all_cons, Bool.and_eq_true] at hwfe'
-      obtain ⟨fc', hF', hpe⟩ := cond_sem hms hinv.inv env cond hcx hwfe'.1 hcc
-        (fun fc'' hf => by rw [hF] at hf; cases hf; exact hcok)
+      obtain ⟨fc', hF', hpe⟩ := cond_sem hms hlb hinv.inv env cond hcx hwfe'.1 hcc
       rw [hF] at hF'; cases hF'
       have hsim := expr_sim hE henv (hinv.rel.agreeOn _ _ _) hinv.inv hinv.immVal
         (WFHyp_of_static (by simp only [List.all_cons, List.all_nil, Bool.and_true]; exact hwfe'.1)) hvc hF
@@ -346,10 +344,98 @@ theorem stmt_main_sem : ∀ f : Nat,
         · rename_i w x hl
           obtain ⟨σIL2, hx2, hinv2⟩ := hshape.step σ1 σIL1 w x hinv1 hl
           obtain ⟨σIL', hx3, hx3F, hinv'⟩ := ihL v cond body st bs bsf st' cc fc stepE loopBody loopBodyF _ σIL2 σC' hcc hF hcx
-            hcok hbs hbsf hcb hshape hshapeF hwfb hwfe hinv2 hex3
+            hbs hbsf hcb hshape hshapeF hwfb hwfe hinv2 hex3
           exact ⟨σIL', ExecIL_repeat_true hcond (hshape.body _ _ _ hx1 hx2) hx3,
             ExecIL_repeat_true hcondF (hshapeF.body _ _ _ hx1F hx2) hx3F, hinv'⟩
         · simp at hex3
+
+/-- **T2-semantic for statements (all forms)**: on the semantic carve-out the repaired lowering succeeds whenever the
+    lowering as coded does, with the same `TSt`, and whenever the C statement terminates from a related state both
+    effects run — to the SAME IL state, related to the final C state. -/
+theorem stmt_sem_both_low {s : CStmt} {st st' : TSt} {eff : ILEffect}
+    (hcomp : compileStmt (codeEnv env) st s = .ok (eff, st')) (hcarve : CarveSSem env s lb = true)
+    (hwf : WFStmt c s = true) (hwfe : (exprsOf s).all (WFES c) = true) {σC σIL σC' : MState} (hinv : Inv c σC σIL)
+    (hex : ExecC ms s σC σC') :
+    ∃ ef, compileStmt (fixedEnv env) st s = .ok (ef, st') ∧
+      ∃ σIL', ExecIL ms eff σIL σIL' ∧ ExecIL ms ef σIL σIL' ∧ Inv c σC' σIL' := by
+  obtain ⟨f, hf⟩ := ExecC_iff.1 hex
+  exact (stmt_main_sem_low hms hlb hc env f).1 s st eff st' σC σIL σC' hcomp hcarve hwf hwfe hinv hf
+
+theorem stmts_sem_both_low {ss : List CStmt} {st st' : TSt} {effs : List ILEffect}
+    (hcomp : compileStmts (codeEnv env) st ss = .ok (effs, st')) (hcarve : CarveSsSem env ss lb = true)
+    (hwf : WFStmts c ss = true) (hwfe : (exprsOfList ss).all (WFES c) = true) {σC σIL σC' : MState}
+    (hinv : Inv c σC σIL) (hex : ExecCs ms ss σC σC') :
+    ∃ efs, compileStmts (fixedEnv env) st ss = .ok (efs, st') ∧
+      ∃ σIL', ExecSeqIL ms effs σIL σIL' ∧ ExecSeqIL ms efs σIL σIL' ∧ Inv c σC' σIL' := by
+  obtain ⟨f, hf⟩ := ExecCs_iff.1 hex
+  exact (stmt_main_sem_low hms hlb hc env f).2.1 ss st effs st' σC σIL σC' hcomp hcarve hwf hwfe hinv hf
+
+/-- **T1 on the semantic carve-out, statements, for the lowering AS CODED**: if the C statement `s` runs from `σC` to
+    `σC'` and the IL state `σIL` is related to `σC`, the effect `Cfg.asCode` emits runs from `σIL` to a state related
+    to `σC'`. -/
+theorem stmt_correct_asCode_sem_low {s : CStmt} {st st' : TSt} {eff : ILEffect}
+    (hcomp : compileStmt (codeEnv env) st s = .ok (eff, st')) (hcarve : CarveSSem env s lb = true)
+    (hwf : WFStmt c s = true) (hwfe : (exprsOf s).all (WFES c) = true) {σC σIL σC' : MState} (hinv : Inv c σC σIL)
+    (hex : ExecC ms s σC σC') :
+    ∃ σIL', ExecIL ms eff σIL σIL' ∧ Inv c σC' σIL' := by
+  obtain ⟨_, _, σIL', hx, _, hinv'⟩ := stmt_sem_both_low hms hlb hc env hcomp hcarve hwf hwfe hinv hex
+  exact ⟨σIL', hx, hinv'⟩
+
+theorem stmts_correct_asCode_sem_low {ss : List CStmt} {st st' : TSt} {effs : List ILEffect}
+    (hcomp : compileStmts (codeEnv env) st ss = .ok (effs, st')) (hcarve : CarveSsSem env ss lb = true)
+    (hwf : WFStmts c ss = true) (hwfe : (exprsOfList ss).all (WFES c) = true) {σC σIL σC' : MState}
+    (hinv : Inv c σC σIL) (hex : ExecCs ms ss σC σC') :
+    ∃ σIL', ExecSeqIL ms effs σIL σIL' ∧ Inv c σC' σIL' := by
+  obtain ⟨_, _, σIL', hx, _, hinv'⟩ := stmts_sem_both_low hms hlb hc env hcomp hcarve hwf hwfe hinv hex
+  exact ⟨σIL', hx, hinv'⟩
+
+end MainLow
+
+/-! ### the same without the low-bits flag (no assumption on the macros beyond `MsOK`) -/
+
+section Main
+variable {ms : MacroSem} (hms : MsOK ms) {c : Ctx} (hc : c.ok = true) (env : CEnv)
+include hms hc
+
+/-- Induction on the C fuel.  For statements, statement lists and loops: the repaired lowering succeeds too (with the
+    same `TSt`), and from related states both effects run to ONE IL state, related to the final C state.
+    (`Inv`: the two-state invariant of `Lemmas/StmtState.lean`; the IL local of an immediate letter holds the C side's
+    CURRENT immediate, the `imm` components themselves are not related.) -/
+theorem stmt_main_sem : ∀ f : Nat,
+    (∀ s st eff st' σC σIL σC', compileStmt (codeEnv env) st s = .ok (eff, st') → CarveSSem env s = true →
+        WFStmt c s = true → (exprsOf s).all (WFES c) = true → Inv c σC σIL → execC ms f s σC = .ok σC' →
+        ∃ ef, compileStmt (fixedEnv env) st s = .ok (ef, st') ∧
+          ∃ σIL', ExecIL ms eff σIL σIL' ∧ ExecIL ms ef σIL σIL' ∧ Inv c σC' σIL') ∧
+    (∀ ss st effs st' σC σIL σC', compileStmts (codeEnv env) st ss = .ok (effs, st') → CarveSsSem env ss = true →
+        WFStmts c ss = true → (exprsOfList ss).all (WFES c) = true → Inv c σC σIL → execCs ms f ss σC = .ok σC' →
+        ∃ efs, compileStmts (fixedEnv env) st ss = .ok (efs, st') ∧
+          ∃ σIL', ExecSeqIL ms effs σIL σIL' ∧ ExecSeqIL ms efs σIL σIL' ∧ Inv c σC' σIL') ∧
+    (∀ v cond body st bs bsf st' cc fc stepE loopBody loopBodyF σC σIL σC', compileExpr (codeEnv env) cond = .ok cc →
+        compileExpr (fixedEnv env) cond = .ok fc → CarveCSem env cond = true →
+        compileStmts (codeEnv env) st body = .ok (bs, st') → compileStmts (fixedEnv env) st body = .ok (bsf, st') →
+        CarveSsSem env body = true →
+        LoopShape ms c v 0 bs stepE loopBody → LoopShape ms c v 0 bsf stepE loopBodyF →
+        WFStmts c body = true → (cond :: exprsOfList body).all (WFES c) = true → Inv c σC σIL →
+        loopC ms f v cond 0 body σC = .ok σC' →
+        ∃ σIL', ExecIL ms (.repeat_ (condIL Cfg.asCode cc) loopBody) σIL σIL' ∧
+          ExecIL ms (.repeat_ (condIL Cfg.fixed fc) loopBodyF) σIL σIL' ∧ Inv c σC' σIL') :=
+  stmt_main_sem_low hms (lb := false) (fun h => nomatch h) hc env
+
+/-- the loop part of `stmt_main_sem` in the form it had before the condition-position carve-out `CarveCSem` existed (the
+    condition value-carved, `CarveESem`, and `condOK` for the repaired lowering): a corollary of the present form -/
+theorem stmt_main_sem_loop_value_cond (f : Nat) :
+    ∀ v cond body st bs bsf st' cc fc stepE loopBody loopBodyF σC σIL σC', compileExpr (codeEnv env) cond = .ok cc →
+        compileExpr (fixedEnv env) cond = .ok fc → CarveESem env.assigned cond = true → condOK fc = true →
+        compileStmts (codeEnv env) st body = .ok (bs, st') → compileStmts (fixedEnv env) st body = .ok (bsf, st') →
+        CarveSsSem env body = true →
+        LoopShape ms c v 0 bs stepE loopBody → LoopShape ms c v 0 bsf stepE loopBodyF →
+        WFStmts c body = true → (cond :: exprsOfList body).all (WFES c) = true → Inv c σC σIL →
+        loopC ms f v cond 0 body σC = .ok σC' →
+        ∃ σIL', ExecIL ms (.repeat_ (condIL Cfg.asCode cc) loopBody) σIL σIL' ∧
+          ExecIL ms (.repeat_ (condIL Cfg.fixed fc) loopBodyF) σIL σIL' ∧ Inv c σC' σIL' := by
+  intro v cond body st bs bsf st' cc fc stepE loopBody loopBodyF σC σIL σC' hcc hF hcx hcok
+  exact (stmt_main_sem hms hc env f).2.2 v cond body st bs bsf st' cc fc stepE loopBody loopBodyF σC σIL σC' hcc hF
+    (carveCSem_of_carveESem hcx (by rw [hF]; exact hcok))
 
 /-- **T2-semantic for statements (all forms)**: on the semantic carve-out the repaired lowering succeeds whenever the
     lowering as coded does, with the same `TSt`, and whenever the C statement terminates from a related state both
@@ -359,18 +445,16 @@ theorem stmt_sem_both {s : CStmt} {st st' : TSt} {eff : ILEffect}
     (hwf : WFStmt c s = true) (hwfe : (exprsOf s).all (WFES c) = true) {σC σIL σC' : MState} (hinv : Inv c σC σIL)
     (hex : ExecC ms s σC σC') :
     ∃ ef, compileStmt (fixedEnv env) st s = .ok (ef, st') ∧
-      ∃ σIL', ExecIL ms eff σIL σIL' ∧ ExecIL ms ef σIL σIL' ∧ Inv c σC' σIL' := by
-  obtain ⟨f, hf⟩ := ExecC_iff.1 hex
-  exact (stmt_main_sem hms hc env f).1 s st eff st' σC σIL σC' hcomp hcarve hwf hwfe hinv hf
+      ∃ σIL', ExecIL ms eff σIL σIL' ∧ ExecIL ms ef σIL σIL' ∧ Inv c σC' σIL' :=
+  stmt_sem_both_low hms (lb := false) (fun h => nomatch h) hc env hcomp hcarve hwf hwfe hinv hex
 
 theorem stmts_sem_both {ss : List CStmt} {st st' : TSt} {effs : List ILEffect}
     (hcomp : compileStmts (codeEnv env) st ss = .ok (effs, st')) (hcarve : CarveSsSem env ss = true)
     (hwf : WFStmts c ss = true) (hwfe : (exprsOfList ss).all (WFES c) = true) {σC σIL σC' : MState}
     (hinv : Inv c σC σIL) (hex : ExecCs ms ss σC σC') :
     ∃ efs, compileStmts (fixedEnv env) st ss = .ok (efs, st') ∧
-      ∃ σIL', ExecSeqIL ms effs σIL σIL' ∧ ExecSeqIL ms efs σIL σIL' ∧ Inv c σC' σIL' := by
-  obtain ⟨f, hf⟩ := ExecCs_iff.1 hex
-  exact (stmt_main_sem hms hc env f).2.1 ss st effs st' σC σIL σC' hcomp hcarve hwf hwfe hinv hf
+      ∃ σIL', ExecSeqIL ms effs σIL σIL' ∧ ExecSeqIL ms efs σIL σIL' ∧ Inv c σC' σIL' :=
+  stmts_sem_both_low hms (lb := false) (fun h => nomatch h) hc env hcomp hcarve hwf hwfe hinv hex
 
 /-- **T1 on the semantic carve-out, statements, for the lowering AS CODED**: if the C statement `s` runs from `σC` to
     `σC'` and the IL state `σIL` is related to `σC`, the effect `Cfg.asCode` emits runs from `σIL` to a state related
@@ -379,30 +463,31 @@ theorem stmt_correct_asCode_sem {s : CStmt} {st st' : TSt} {eff : ILEffect}
     (hcomp : compileStmt (codeEnv env) st s = .ok (eff, st')) (hcarve : CarveSSem env s = true)
     (hwf : WFStmt c s = true) (hwfe : (exprsOf s).all (WFES c) = true) {σC σIL σC' : MState} (hinv : Inv c σC σIL)
     (hex : ExecC ms s σC σC') :
-    ∃ σIL', ExecIL ms eff σIL σIL' ∧ Inv c σC' σIL' := by
-  obtain ⟨_, _, σIL', hx, _, hinv'⟩ := stmt_sem_both hms hc env hcomp hcarve hwf hwfe hinv hex
-  exact ⟨σIL', hx, hinv'⟩
+    ∃ σIL', ExecIL ms eff σIL σIL' ∧ Inv c σC' σIL' :=
+  stmt_correct_asCode_sem_low hms (lb := false) (fun h => nomatch h) hc env hcomp hcarve hwf hwfe hinv hex
 
 theorem stmts_correct_asCode_sem {ss : List CStmt} {st st' : TSt} {effs : List ILEffect}
     (hcomp : compileStmts (codeEnv env) st ss = .ok (effs, st')) (hcarve : CarveSsSem env ss = true)
     (hwf : WFStmts c ss = true) (hwfe : (exprsOfList ss).all (WFES c) = true) {σC σIL σC' : MState}
     (hinv : Inv c σC σIL) (hex : ExecCs ms ss σC σC') :
-    ∃ σIL', ExecSeqIL ms effs σIL σIL' ∧ Inv c σC' σIL' := by
-  obtain ⟨_, _, σIL', hx, _, hinv'⟩ := stmts_sem_both hms hc env hcomp hcarve hwf hwfe hinv hex
-  exact ⟨σIL', hx, hinv'⟩
+    ∃ σIL', ExecSeqIL ms effs σIL σIL' ∧ Inv c σC' σIL' :=
+  stmts_correct_asCode_sem_low hms (lb := false) (fun h => nomatch h) hc env hcomp hcarve hwf hwfe hinv hex
 
 end Main
 
-/-! ## whole behaviours -/
+/-! ## whole behaviours
+
+  General forms (`…_low`: carve-out with the low-bits flag `lb`, hypothesis `lb = true → MsLow ms`) first, then the forms
+  without flag. -/
 
 /-- on the semantic carve-out the two lowerings register the same immediates: `progImms` (defined through the repaired
     lowering) is what the lowering as coded registers -/
-theorem progImms_asCode {ms : MacroSem} (hms : MsOK ms) {c : Ctx} (hc : c.ok = true) {prog : List CStmt}
-    (hcarve : CarveProgSem prog = true) (hwf : WFStmts c prog = true) (hwfe : (exprsOfList prog).all (WFES c) = true)
+theorem progImms_asCode_low {ms : MacroSem} (hms : MsOK ms) {lb : Bool} (hlb : lb = true → MsLow ms) {c : Ctx} (hc : c.ok = true) {prog : List CStmt}
+    (hcarve : CarveProgSem prog lb = true) (hwf : WFStmts c prog = true) (hwfe : (exprsOfList prog).all (WFES c) = true)
     {es : List ILEffect} {st : TSt}
     (hcs : compileStmts { assigned := assignedOfList prog, cfg := Cfg.asCode } { imms := [], hyb := 0 } prog = .ok (es, st)) :
     progImms prog = st.imms.map (·.1) := by
-  have h := stmts_state_sem hms hc (typedState_SInv hc) { assigned := assignedOfList prog, cfg := Cfg.fixed } prog
+  have h := stmts_state_sem hms hlb hc (typedState_SInv hc) { assigned := assignedOfList prog, cfg := Cfg.fixed } prog
     { imms := [], hyb := 0 } hcarve hwf hwfe
   obtain ⟨⟨es', st''⟩, hF, hrel⟩ := h.ok_left hcs
   simp only [TStsRel] at hrel
@@ -414,9 +499,9 @@ theorem progImms_asCode {ms : MacroSem} (hms : MsOK ms) {c : Ctx} (hc : c.ok = t
     as coded does, and from every initial state in which the C behaviour terminates the two effects (each with its
     `imm_assign` prologue) run to the SAME IL state, which is related to the final C state (`StRel`: everything
     observable; not the immediates, see `certifiedSem_correct`). -/
-theorem prog_sem_both {ms : MacroSem} (hms : MsOK ms) {c : Ctx} (hc : c.ok = true)
+theorem prog_sem_both_low {ms : MacroSem} (hms : MsOK ms) {lb : Bool} (hlb : lb = true → MsLow ms) {c : Ctx} (hc : c.ok = true)
     {prog : List CStmt} {eff : ILEffect}
-    (hcarve : CarveSsSem { assigned := assignedOfList prog, cfg := Cfg.fixed } prog = true)
+    (hcarve : CarveSsSem { assigned := assignedOfList prog, cfg := Cfg.fixed } prog lb = true)
     (hcomp : compileProg Cfg.asCode prog = .ok eff)
     (himms : ∀ l, l ∈ c.imms ↔ l ∈ progImms prog)
     (hwf : WFStmts c prog = true) (hwfe : (exprsOfList prog).all (WFES c) = true)
@@ -428,7 +513,7 @@ theorem prog_sem_both {ms : MacroSem} (hms : MsOK ms) {c : Ctx} (hc : c.ok = tru
   obtain ⟨⟨es, st⟩, hcs, h⟩ := bind_ok hcomp
   simp only [Except.ok.injEq] at h
   subst h
-  have hpi : progImms prog = st.imms.map (·.1) := progImms_asCode hms hc hcarve hwf hwfe hcs
+  have hpi : progImms prog = st.imms.map (·.1) := progImms_asCode_low hms hlb hc hcarve hwf hwfe hcs
   obtain ⟨σ1, hpro, h1, h2, h3, h4, h5, h6, h7, hout, hin⟩ := prologue_exec ms st.imms σ0
   have hnone : ∀ n, lookupS n σ0.locals = none := by intro n; rw [hloc]; rfl
   have hinv : Inv c σ0 σ1 := by
@@ -446,7 +531,7 @@ theorem prog_sem_both {ms : MacroSem} (hms : MsOK ms) {c : Ctx} (hc : c.ok = tru
       exact hin l (hpi ▸ (himms l).1 hl)
     · intro n _; exact hnone n
     · intro l _; exact hnone l
-  obtain ⟨efs, hefs, σIL', hx, hxF, hinv'⟩ := stmts_sem_both hms hc { assigned := assignedOfList prog, cfg := Cfg.fixed }
+  obtain ⟨efs, hefs, σIL', hx, hxF, hinv'⟩ := stmts_sem_both_low hms hlb hc { assigned := assignedOfList prog, cfg := Cfg.fixed }
     hcs hcarve hwf hwfe hinv hex
   have hefs' : compileStmts { assigned := assignedOfList prog, cfg := Cfg.fixed } { imms := [], hyb := 0 } prog
       = .ok (efs, st) := hefs
@@ -454,6 +539,67 @@ theorem prog_sem_both {ms : MacroSem} (hms : MsOK ms) {c : Ctx} (hc : c.ok = tru
     mkSeq_exec.2 (ExecSeqIL_append hpro hxF), hinv'.rel⟩
   unfold compileProg
   simp only [hefs', bind, Except.bind]
+
+/-- **End to end on the semantic carve-out** (`prog_correct_asCode_closed` of Props/C05Compose.lean with `CarveSs`
+    replaced by `CarveSsSem`): the lowering AS CODED preserves the C semantics of a whole behaviour (`StRel` of the final
+    states: everything observable; not the immediates, see `certifiedSem_correct`). -/
+theorem prog_correct_asCode_sem_closed_low {ms : MacroSem} (hms : MsOK ms) {lb : Bool} (hlb : lb = true → MsLow ms) {c : Ctx} (hc : c.ok = true)
+    {prog : List CStmt} {eff : ILEffect}
+    (hcarve : CarveSsSem { assigned := assignedOfList prog, cfg := Cfg.fixed } prog lb = true)
+    (hcomp : compileProg Cfg.asCode prog = .ok eff)
+    (himms : ∀ l, l ∈ c.imms ↔ l ∈ progImms prog)
+    (hwf : WFStmts c prog = true) (hwfe : (exprsOfList prog).all (WFES c) = true)
+    {σ0 σC' : MState} (hloc : σ0.locals = []) (hsrcs : ∀ ov ∈ c.srcs, σ0.written ov = false)
+    (hex : ExecCs ms prog σ0 σC') :
+    ∃ σIL', ExecIL ms eff σ0 σIL' ∧ StRel σC' σIL' := by
+  obtain ⟨_, _, σIL', hx, _, hrel⟩ := prog_sem_both_low hms hlb hc hcarve hcomp himms hwf hwfe hloc hsrcs hex
+  exact ⟨σIL', hx, hrel⟩
+
+/-- the same for the hybrid lowering model `compileProgH` (the model the harness compares the real compiler with), on
+    hybrid-free programs satisfying the side condition `HSameProg Cfg.asCode` of `Props/CompileHEqv.lean`.
+    (`HSameProg_of_carve` derives that side condition from the SYNTACTIC carve-out and `NoDeadVarlProg`; its proof uses
+    the carve-out only to exclude a folded comparison as operand of a foldable operator.  Here the side condition is a
+    hypothesis, checked by evaluation in the certificate.)  `StRel` does not relate the immediates, see
+    `certifiedSem_correct`. -/
+theorem progH_correct_asCode_sem_closed_low {ms : MacroSem} (hms : MsOK ms) {lb : Bool} (hlb : lb = true → MsLow ms) {c : Ctx} (hc : c.ok = true)
+    {prog : List CStmt} {eff : ILEffect}
+    (hcarve : CarveSsSem { assigned := assignedOfList prog, cfg := Cfg.fixed } prog lb = true)
+    (hfree : HybFreeSs prog = true) (hsame : HSameProg Cfg.asCode prog = true)
+    (hcomp : compileProgH Cfg.asCode prog = .ok eff)
+    (himms : ∀ l, l ∈ c.imms ↔ l ∈ progImms prog)
+    (hwf : WFStmts c prog = true) (hwfe : (exprsOfList prog).all (WFES c) = true)
+    {σ0 σC' : MState} (hloc : σ0.locals = []) (hsrcs : ∀ ov ∈ c.srcs, σ0.written ov = false)
+    (hex : ExecCs ms prog σ0 σC') :
+    ∃ σIL', ExecIL ms eff σ0 σIL' ∧ StRel σC' σIL' :=
+  prog_correct_asCode_sem_closed_low hms hlb hc hcarve
+    (by rw [← compileProgH_eq_compileProg_asCode prog hfree hsame]; exact hcomp) himms hwf hwfe hloc hsrcs hex
+
+/-! ### … without the low-bits flag -/
+
+/-- on the semantic carve-out the two lowerings register the same immediates: `progImms` (defined through the repaired
+    lowering) is what the lowering as coded registers -/
+theorem progImms_asCode {ms : MacroSem} (hms : MsOK ms) {c : Ctx} (hc : c.ok = true) {prog : List CStmt}
+    (hcarve : CarveProgSem prog = true) (hwf : WFStmts c prog = true) (hwfe : (exprsOfList prog).all (WFES c) = true)
+    {es : List ILEffect} {st : TSt}
+    (hcs : compileStmts { assigned := assignedOfList prog, cfg := Cfg.asCode } { imms := [], hyb := 0 } prog = .ok (es, st)) :
+    progImms prog = st.imms.map (·.1) :=
+  progImms_asCode_low hms (lb := false) (fun h => nomatch h) hc hcarve hwf hwfe hcs
+
+/-- **T2-semantic for whole behaviours**: on the semantic carve-out the repaired lowering succeeds whenever the lowering
+    as coded does, and from every initial state in which the C behaviour terminates the two effects (each with its
+    `imm_assign` prologue) run to the SAME IL state, which is related to the final C state (`StRel`: everything
+    observable; not the immediates, see `certifiedSem_correct`). -/
+theorem prog_sem_both {ms : MacroSem} (hms : MsOK ms) {c : Ctx} (hc : c.ok = true)
+    {prog : List CStmt} {eff : ILEffect}
+    (hcarve : CarveSsSem { assigned := assignedOfList prog, cfg := Cfg.fixed } prog = true)
+    (hcomp : compileProg Cfg.asCode prog = .ok eff)
+    (himms : ∀ l, l ∈ c.imms ↔ l ∈ progImms prog)
+    (hwf : WFStmts c prog = true) (hwfe : (exprsOfList prog).all (WFES c) = true)
+    {σ0 σC' : MState} (hloc : σ0.locals = []) (hsrcs : ∀ ov ∈ c.srcs, σ0.written ov = false)
+    (hex : ExecCs ms prog σ0 σC') :
+    ∃ ef, compileProg Cfg.fixed prog = .ok ef ∧
+      ∃ σIL', ExecIL ms eff σ0 σIL' ∧ ExecIL ms ef σ0 σIL' ∧ StRel σC' σIL' :=
+  prog_sem_both_low hms (lb := false) (fun h => nomatch h) hc hcarve hcomp himms hwf hwfe hloc hsrcs hex
 
 /-- **End to end on the semantic carve-out** (`prog_correct_asCode_closed` of Props/C05Compose.lean with `CarveSs`
     replaced by `CarveSsSem`): the lowering AS CODED preserves the C semantics of a whole behaviour (`StRel` of the final
@@ -466,9 +612,8 @@ theorem prog_correct_asCode_sem_closed {ms : MacroSem} (hms : MsOK ms) {c : Ctx}
     (hwf : WFStmts c prog = true) (hwfe : (exprsOfList prog).all (WFES c) = true)
     {σ0 σC' : MState} (hloc : σ0.locals = []) (hsrcs : ∀ ov ∈ c.srcs, σ0.written ov = false)
     (hex : ExecCs ms prog σ0 σC') :
-    ∃ σIL', ExecIL ms eff σ0 σIL' ∧ StRel σC' σIL' := by
-  obtain ⟨_, _, σIL', hx, _, hrel⟩ := prog_sem_both hms hc hcarve hcomp himms hwf hwfe hloc hsrcs hex
-  exact ⟨σIL', hx, hrel⟩
+    ∃ σIL', ExecIL ms eff σ0 σIL' ∧ StRel σC' σIL' :=
+  prog_correct_asCode_sem_closed_low hms (lb := false) (fun h => nomatch h) hc hcarve hcomp himms hwf hwfe hloc hsrcs hex
 
 /-- the same for the hybrid lowering model `compileProgH` (the model the harness compares the real compiler with), on
     hybrid-free programs satisfying the side condition `HSameProg Cfg.asCode` of `Props/CompileHEqv.lean`.
@@ -486,8 +631,39 @@ theorem progH_correct_asCode_sem_closed {ms : MacroSem} (hms : MsOK ms) {c : Ctx
     {σ0 σC' : MState} (hloc : σ0.locals = []) (hsrcs : ∀ ov ∈ c.srcs, σ0.written ov = false)
     (hex : ExecCs ms prog σ0 σC') :
     ∃ σIL', ExecIL ms eff σ0 σIL' ∧ StRel σC' σIL' :=
-  prog_correct_asCode_sem_closed hms hc hcarve
-    (by rw [← compileProgH_eq_compileProg_asCode prog hfree hsame]; exact hcomp) himms hwf hwfe hloc hsrcs hex
+  progH_correct_asCode_sem_closed_low hms (lb := false) (fun h => nomatch h) hc hcarve hfree hsame hcomp himms hwf hwfe hloc hsrcs hex
+
+/-- **End to end, as coded, all states, certificate with the low-bits macro arguments** (`certifiedSemX`): the
+    statement of `certifiedSem_correct` under the ADDITIONAL assumption `MsLow ms` on the macro interpretation —
+    `extract64(v, start, len)` / `sextract64(v, start, len)` do not depend on the bits of `v` from `start + len` upwards
+    (true of QEMU's functions).  It covers QEMU's `fSXTN(N, M, VAL)` = `((N) != 0) ? sextract64(VAL, 0, N) : 0LL` applied
+    to a 32-bit or 16-bit signed `VAL`: the `uint64_t` parameter makes the code zero-extend `VAL` where C sign-extends
+    it, a difference above bit `N` which the macro does not read.  Final states: as in `certifiedSem_correct`. -/
+theorem certifiedSemX_correct {ms : MacroSem} (hms : MsOK ms) (hlow : MsLow ms) {prog : List CStmt} {eff : ILEffect}
+    (hcert : certifiedSemX prog = true) (hcomp : compileProgH Cfg.asCode prog = .ok eff)
+    {σ0 σC' : MState} (hloc : σ0.locals = []) (hsrcs : ∀ ov ∈ (ctxOf prog).srcs, σ0.written ov = false)
+    (hex : ExecCs ms prog σ0 σC') :
+    ∃ σIL', ExecIL ms eff σ0 σIL' ∧ StRel σC' σIL' := by
+  simp only [certifiedSemX, CarveProgSem, Bool.and_eq_true] at hcert
+  obtain ⟨⟨⟨⟨⟨hok, hwf⟩, hwfe⟩, hcarve⟩, hfree⟩, hsame⟩ := hcert
+  exact progH_correct_asCode_sem_closed_low hms (lb := true) (fun _ => hlow) hok hcarve hfree hsame hcomp (fun _ => Iff.rfl) hwf hwfe
+    hloc hsrcs hex
+
+/-- `certifiedSemX_correct` with equal immediates of the final states, for a behaviour that assigns to no immediate -/
+theorem certifiedSemX_correct_imm {ms : MacroSem} (hms : MsOK ms) (hlow : MsLow ms) {prog : List CStmt} {eff : ILEffect}
+    (hcert : certifiedSemX prog = true) (hnoimm : noImmTargets prog = true) (hcomp : compileProgH Cfg.asCode prog = .ok eff)
+    {σ0 σC' : MState} (hloc : σ0.locals = []) (hsrcs : ∀ ov ∈ (ctxOf prog).srcs, σ0.written ov = false)
+    (hex : ExecCs ms prog σ0 σC') :
+    ∃ σIL', ExecIL ms eff σ0 σIL' ∧ StRel σC' σIL' ∧ σC'.imm = σIL'.imm := by
+  obtain ⟨σIL', hx, hrel⟩ := certifiedSemX_correct hms hlow hcert hcomp hloc hsrcs hex
+  exact ⟨σIL', hx, hrel, imm_eq_of_noImmTargets hnoimm hex hx⟩
+
+/-- for behaviours certified with the low-bits flag the two lowering models coincide as well -/
+theorem certifiedSemX_models_agree {prog : List CStmt} (hcert : certifiedSemX prog = true) :
+    compileProgH Cfg.asCode prog = compileProg Cfg.asCode prog := by
+  simp only [certifiedSemX, Bool.and_eq_true] at hcert
+  obtain ⟨⟨_, hfree⟩, hsame⟩ := hcert
+  exact compileProgH_eq_compileProg_asCode prog hfree hsame
 
 /-- **End to end, as coded, all states, semantic certificate** (`C01.certified_correct` with `certified` replaced by
     `certifiedSem`): if the semantic certificate of a behaviour holds and the lowering as coded returns an effect, then
@@ -542,6 +718,52 @@ theorem certifiedSemB_correct {ms : MacroSem} (hms : MsOK ms) {prog : List CStmt
     exact h.1.2
   rw [Bare.compileProgH_dropBare _ _ hfree] at hcomp
   exact certifiedSem_correct hms hcert hcomp hloc hsrcs (Bare.ExecCs_dropBare hex)
+
+/-- `certifiedSemB_correct` for the certificate with the low-bits macro arguments (assumption `MsLow ms`) -/
+theorem certifiedSemXB_correct {ms : MacroSem} (hms : MsOK ms) (hlow : MsLow ms) {prog : List CStmt} {eff : ILEffect}
+    (hcert : certifiedSemX (dropBare prog) = true) (hcomp : compileProgH Cfg.asCode prog = .ok eff)
+    {σ0 σC' : MState} (hloc : σ0.locals = []) (hsrcs : ∀ ov ∈ (ctxOf (dropBare prog)).srcs, σ0.written ov = false)
+    (hex : ExecCs ms prog σ0 σC') :
+    ∃ σIL', ExecIL ms eff σ0 σIL' ∧ StRel σC' σIL' := by
+  have hfree : HybFreeSs (dropBare prog) = true := by
+    have h := hcert
+    simp only [certifiedSemX, Bool.and_eq_true] at h
+    exact h.1.2
+  rw [Bare.compileProgH_dropBare _ _ hfree] at hcomp
+  exact certifiedSemX_correct hms hlow hcert hcomp hloc hsrcs (Bare.ExecCs_dropBare hex)
+
+/-! ### the assumption `MsLow` holds of the interpretation the driver executes with -/
+
+/-- bits `s … s+l-1` of `v` depend on the bits of `v` below `s + l` only -/
+theorem low_raw_eq {v v' : BitVec 64} {s l : Nat} (h : ∀ i, i < s + l → v.getLsbD i = v'.getLsbD i) :
+    (v.toNat >>> s) % 2 ^ l = (v'.toNat >>> s) % 2 ^ l := by
+  apply Nat.eq_of_testBit_eq
+  intro i
+  simp only [Nat.testBit_mod_two_pow, Nat.testBit_shiftRight]
+  by_cases hi : i < l
+  · have := h (s + i) (by omega)
+    simp only [BitVec.getLsbD] at this
+    simp [hi, this]
+  · simp [hi]
+
+theorem and_mask (a n : Nat) : a &&& mask n = a % 2 ^ n := by
+  unfold mask; exact Nat.and_two_pow_sub_one_eq_mod a n
+
+/-- `macroSem` (Model/DriverSem.lean), the interpretation of `extract64`/`sextract64` the DRIVER uses when it executes
+    the C text and the real effect on the sampled states, satisfies the assumption of `certifiedSemX_correct` -/
+theorem msLow_macroSem : MsLow macroSem := by
+  intro name hname v v' ws wl s l h
+  have hraw : (v.toNat >>> (s.toNat % 64)) % 2 ^ (l.toNat % 65) = (v'.toNat >>> (s.toNat % 64)) % 2 ^ (l.toNat % 65) :=
+    low_raw_eq (fun i hi => h i (by
+      have h1 := Nat.mod_le s.toNat 64
+      have h2 := Nat.mod_le l.toNat 65
+      omega))
+  simp only [lowMacros, List.mem_cons, List.not_mem_nil, or_false] at hname
+  rcases hname with rfl | rfl
+  · have hk : (macroRzName "extract64").toLower = "extract64" := by decide +kernel
+    simp only [macroSem, hk, and_mask, hraw]
+  · have hk : (macroRzName "sextract64").toLower = "sextract64" := by decide +kernel
+    simp only [macroSem, hk, and_mask, hraw]
 
 /-- **End to end, as coded, all states, behaviours with bare PURE value statements** (`siV; EA = RsV + siV; …`, `RsV;`,
     `uiV;` — QEMU's shortcode starts most behaviours with such "touch the operand" statements; they may stand anywhere:
@@ -763,6 +985,397 @@ example : ∀ σ', ¬ ExecCs noMacros [.exprstmt (.shift "<<" (.lit 1 false "") 
           (.shift "<<" (.lit 1 false "") (.imm "s" true))) = false := by decide +kernel
       rw [h] at this; cases this
   exact Sem.bare_undefined_not_ignored hm
+
+/-! ### the widened carve-out (branch `carve-wider`): conditions `!x` / `a && b` / `a || b`, constant `?:` -/
+
+/-- `{ uiV; EA = (RsV + uiV); if ((!(PvV & 1))) { mem_store_u8(EA, ((int8_t)((RtV >> (0 * 8)) & 0xff))); } else { {
+    STORE_SLOT_CANCELLED(pkt, slot); } } }`: the shipped `S2_pstorerbf_io` as `harness/elab.py` delivers it (the nested
+    block of the else-arm is spliced) — the shape of every predicated store/load with a negated predicate -/
+def s2_pstorerbf_io : List CStmt :=
+  [.exprstmt (.imm "u" false),
+   .assign (.var "EA" utT) "=" (.bin "+" (.reg "RsV" .src ⟨true, 32⟩) (.imm "u" false)),
+   .ite (.not (.bin "&" (.reg "PvV" .src ⟨true, 8⟩) (.lit 1 false "")))
+     [.store 8 (.cast ⟨true, 8⟩ (.bin "&" (.shift ">>" (.reg "RtV" .src ⟨true, 32⟩) (.bin "*" (.lit 0 false "") (.lit 8 false "")))
+        (.lit 255 true "")))]
+     (some [.skip "STORE_SLOT_CANCELLED(pkt, slot);"])]
+
+/-- the condition `!(PvV & 1)`: outside the VALUE carve-out (the code types it `int8`-promoted-to-`int` like its operand,
+    the repaired lowering as a BOOL), inside the CONDITION carve-out; the two lowerings do give it different types -/
+def notPv : CExpr := .not (.bin "&" (.reg "PvV" .src ⟨true, 8⟩) (.lit 1 false ""))
+def envW : CEnv := { assigned := [], cfg := Cfg.fixed }
+example : CarveESem [] notPv = false ∧ CarveCSem envW notPv = true := by decide +kernel
+example : (compileExpr (codeEnv envW) notPv).toOption.map (·.ty) = some ⟨true, 32, 1⟩ ∧
+    (compileExpr (fixedEnv envW) notPv).toOption.map (·.ty) = some ⟨false, 1, gBool⟩ := by decide +kernel
+/-- `&&` / `||` of two such operands, or of two comparisons, are conditions too; as values they stay outside.  (A `&&`
+    whose operands get DIFFERENT types from the code — a comparison and a `!x` — is excluded as before: `logSafeSem`.) -/
+def notPt : CExpr := .not (.bin "&" (.reg "PtV" .src ⟨true, 8⟩) (.lit 1 false ""))
+example : CarveCSem envW (.log "&&" notPv notPt) = true ∧
+    CarveCSem envW (.log "||" (.cmp "==" T3.rs T3.rt) (.cmp "<" T3.rs (.imm "u" false))) = true ∧
+    CarveCSem envW (.not (.log "||" (.cmp "==" T3.rs T3.rt) (.cmp "<" T3.rs (.imm "u" false)))) = true ∧
+    CarveESem [] (.log "||" (.cmp "==" T3.rs T3.rt) (.cmp "<" T3.rs (.imm "u" false))) = false ∧
+    CarveCSem envW (.log "&&" notPv (.cmp "<" T3.rs (.imm "u" false))) = false := by decide +kernel
+/-- what `if`/`for` accepted before is still accepted (`Sem.carveCSem_of_carveESem`); a condition that is not a
+    `BooleanOp`/`CompareOp` object but carries the copied BOOL flag is still excluded: `if ((RsV < uiV) + 0)`-like values
+    are outside already as values; a widening conversion inside the condition is outside: `if (!((uint64_t)RsV))` -/
+example : CarveCSem envW (.cmp "<" T3.rs (.imm "u" false)) = true ∧ CarveCSem envW T3.rs = true ∧
+    CarveCSem envW (.not T3.eCast) = false := by decide +kernel
+
+/-- the certificate holds for the predicated store (it was false before: `CarveProgSem` failed on the condition) -/
+theorem s2_pstorerbf_io_certified : certifiedSem s2_pstorerbf_io = true := by decide +kernel
+example : certified s2_pstorerbf_io = false := by decide +kernel
+
+/-- `uiV = 8`, predicate register `Pv = 2` (bit 0 clear: the store happens), every other register `0x1234` -/
+def pstore_state : MState :=
+  { (default : MState) with imm := fun _ => 8, cur := fun k => if k == "Pv_op" then 2 else 0x1234 }
+/-- the same with `Pv = 1`: the slot is cancelled -/
+def pstore_state_t : MState :=
+  { (default : MState) with imm := fun _ => 8, cur := fun k => if k == "Pv_op" then 1 else 0x1234 }
+
+def finalMem (a : Nat) : Except Stuck MState → Option Nat
+  | .ok σ => some (σ.mem a)
+  | .error _ => none
+
+/-- all hypotheses of `certifiedSem_correct` hold together for `S2_pstorerbf_io` from `pstore_state`; its conclusion
+    follows, and the EMITTED effect stores the byte `0x34` at `0x1234 + 8` -/
+example : ∃ eff σC' σIL', compileProgH Cfg.asCode s2_pstorerbf_io = .ok eff ∧ ExecCs noMacros s2_pstorerbf_io pstore_state σC' ∧
+    ExecIL noMacros eff pstore_state σIL' ∧ StRel σC' σIL' ∧ σIL'.mem 0x123c = 0x34 ∧ σIL'.stores = [0x123c] := by
+  obtain ⟨eff, hcomp⟩ := isOk_elim (x := compileProgH Cfg.asCode s2_pstorerbf_io) (by decide +kernel)
+  obtain ⟨σC', hC⟩ := isOk_elim (x := execCs noMacros 6 s2_pstorerbf_io pstore_state) (by decide +kernel)
+  have hex : ExecCs noMacros s2_pstorerbf_io pstore_state σC' := ExecCs_iff.2 ⟨6, hC⟩
+  obtain ⟨σIL', hx, hrel⟩ := Sem.certifiedSem_correct T3.msOK_trivial s2_pstorerbf_io_certified hcomp rfl (fun _ _ => rfl) hex
+  have hmem : finalMem 0x123c (execCs noMacros 6 s2_pstorerbf_io pstore_state) = some 0x34 := by decide +kernel
+  have hst : (match execCs noMacros 6 s2_pstorerbf_io pstore_state with | .ok σ => some σ.stores | .error _ => none) = some [0x123c] := by
+    decide +kernel
+  rw [hC] at hmem hst
+  simp only [finalMem, Option.some.injEq] at hmem hst
+  exact ⟨eff, σC', σIL', hcomp, hex, hx, hrel, by rw [← hrel.mem]; exact hmem, by rw [← hrel.stores]; exact hst⟩
+
+/-- … and from `pstore_state_t` (predicate true) the emitted effect cancels the slot and stores nothing -/
+example : ∃ eff σC' σIL', compileProgH Cfg.asCode s2_pstorerbf_io = .ok eff ∧ ExecCs noMacros s2_pstorerbf_io pstore_state_t σC' ∧
+    ExecIL noMacros eff pstore_state_t σIL' ∧ StRel σC' σIL' ∧ σIL'.stores = [] ∧
+    lookupS "$slot_cancelled" σIL'.locals = some (.bool true) := by
+  obtain ⟨eff, hcomp⟩ := isOk_elim (x := compileProgH Cfg.asCode s2_pstorerbf_io) (by decide +kernel)
+  obtain ⟨σC', hC⟩ := isOk_elim (x := execCs noMacros 6 s2_pstorerbf_io pstore_state_t) (by decide +kernel)
+  have hex : ExecCs noMacros s2_pstorerbf_io pstore_state_t σC' := ExecCs_iff.2 ⟨6, hC⟩
+  obtain ⟨σIL', hx, hrel⟩ := Sem.certifiedSem_correct T3.msOK_trivial s2_pstorerbf_io_certified hcomp rfl (fun _ _ => rfl) hex
+  have hst : (match execCs noMacros 6 s2_pstorerbf_io pstore_state_t with | .ok σ => some σ.stores | .error _ => none) = some [] := by
+    decide +kernel
+  have hsl : finalLocal "$slot_cancelled" (execCs noMacros 6 s2_pstorerbf_io pstore_state_t) = some (.bool true) := by decide +kernel
+  rw [hC] at hst hsl
+  simp only [Option.some.injEq] at hst
+  exact ⟨eff, σC', σIL', hcomp, hex, hx, hrel, by rw [← hrel.stores]; exact hst, hrel.locals _ _ hsl⟩
+
+/-- a loop whose condition is a `&&`: `{ int i; for (i = 0; ((i < 2) && (RsV != RtV)); i++) { RdV = i; } }` -/
+def for_and : List CStmt :=
+  [.decl ⟨false, 32⟩ "i" none,
+   .for_ "i" (.log "&&" (.cmp "<" (.var "i" utT) (.lit 2 false "")) (.cmp "!=" T3.rs T3.rt)) 0
+     [.assign (.reg "RdV" .dst ⟨true, 32⟩) "=" (.var "i" utT)]]
+example : certifiedSem for_and = true := by decide +kernel
+
+/-! #### constant-condition `?:` (QEMU's `fSXTN(N, M, VAL)` = `((N) != 0) ? sextract64(VAL, 0, N) : 0LL`, `fZXTN` with
+    `extract64`): accepted when the live arm already has the common type of both arms (`liveKeepsTy`) -/
+
+/-- `{ RddV = ((16 != 0) ? sextract64(RssV, 0, 16) : 0LL); }` — both arms `int64_t` (accepted before as well) -/
+def fsxtn : List CStmt :=
+  [.assign (.reg "RddV" .dst ⟨true, 64⟩) "=" (.tern (.cmp "!=" (.lit 16 false "") (.lit 0 false ""))
+     (.macro "sextract64" [.reg "RssV" .src ⟨true, 64⟩, .lit 0 false "", .lit 16 false ""] ⟨true, 64⟩ [⟨false, 64⟩, ⟨true, 32⟩, ⟨true, 32⟩])
+     (.lit 0 false "LL"))]
+theorem fsxtn_certified : certifiedSem fsxtn = true := by decide +kernel
+
+/-- `{ RddV = ((8 != 0) ? extract64(RssV, 0, 8) : 0LL); }` — live arm `uint64_t`, dead arm `int64_t`: the common type is
+    the live arm's, nothing is dropped; NEW (the arms have different types) -/
+def fzxtn : List CStmt :=
+  [.assign (.reg "RddV" .dst ⟨true, 64⟩) "=" (.tern (.cmp "!=" (.lit 8 false "") (.lit 0 false ""))
+     (.macro "extract64" [.reg "RssV" .src ⟨true, 64⟩, .lit 0 false "", .lit 8 false ""] ⟨false, 64⟩ [⟨false, 64⟩, ⟨true, 32⟩, ⟨true, 32⟩])
+     (.lit 0 false "LL"))]
+theorem fzxtn_certified : certifiedSem fzxtn = true := by decide +kernel
+
+/-- the shipped `S2_insertp_rp` exactly as `harness/elab.py` delivers it — `{ int width = ((6 != 0) ? extract64(((int64_t)
+    ((int32_t)((RttV >> (1 * 32)) & 0x0ffffffffLL))), 0, 6) : 0LL); int offset = ((7 != 0) ? sextract64(…, 0, 7) : 0LL);
+    size8u_t mask = ((1LL << width) - 1); if ((offset < 0)) { RxxV = 0; } else { RxxV &= (~(mask << offset)); RxxV |=
+    ((RssV & mask) << offset); } }` — is certified now (`fZXTN`: live `uint64_t`, dead `int64_t`) -/
+def s2_insertp_rp : List CStmt :=
+  [.decl ⟨true, 32⟩ "width" (some (.tern (.cmp "!=" (.lit 6 false "") (.lit 0 false ""))
+     (.macro "extract64" [.cast ⟨true, 64⟩ (.cast ⟨true, 32⟩ (.bin "&" (.shift ">>" (.reg "RttV" .src ⟨true, 64⟩)
+        (.bin "*" (.lit 1 false "") (.lit 32 false ""))) (.lit 4294967295 true "LL"))), .lit 0 false "", .lit 6 false ""]
+        ⟨false, 64⟩ [⟨false, 64⟩, ⟨true, 32⟩, ⟨true, 32⟩]) (.lit 0 false "LL"))),
+   .decl ⟨true, 32⟩ "offset" (some (.tern (.cmp "!=" (.lit 7 false "") (.lit 0 false ""))
+     (.macro "sextract64" [.cast ⟨true, 64⟩ (.cast ⟨true, 32⟩ (.bin "&" (.shift ">>" (.reg "RttV" .src ⟨true, 64⟩)
+        (.bin "*" (.lit 0 false "") (.lit 32 false ""))) (.lit 4294967295 true "LL"))), .lit 0 false "", .lit 7 false ""]
+        ⟨true, 64⟩ [⟨false, 64⟩, ⟨true, 32⟩, ⟨true, 32⟩]) (.lit 0 false "LL"))),
+   .decl ⟨false, 64⟩ "mask" (some (.bin "-" (.shift "<<" (.lit 1 false "LL") (.var "width" ⟨true, 32⟩)) (.lit 1 false ""))),
+   .ite (.cmp "<" (.var "offset" ⟨true, 32⟩) (.lit 0 false ""))
+     [.assign (.reg "RxxV" .rw ⟨true, 64⟩) "=" (.lit 0 false "")]
+     (some [.assign (.reg "RxxV" .rw ⟨true, 64⟩) "&=" (.un "~" (.shift "<<" (.var "mask" ⟨false, 64⟩) (.var "offset" ⟨true, 32⟩))),
+      .assign (.reg "RxxV" .rw ⟨true, 64⟩) "|=" (.shift "<<" (.bin "&" (.reg "RssV" .src ⟨true, 64⟩) (.var "mask" ⟨false, 64⟩))
+        (.var "offset" ⟨true, 32⟩))])]
+theorem s2_insertp_rp_certified : certifiedSem s2_insertp_rp = true := by decide +kernel
+
+/-- the side condition on the compiled arms: live `uint64_t` / dead `int64_t` is inside, live `int32_t` / dead
+    `uint64_t` (`1 ? RsV : 1ULL`, the listed finding) and live `int64_t` / dead `uint64_t` are outside, arms narrower than
+    `int` are outside -/
+example :
+    liveKeepsTy true { il := .btrue, ty := ⟨false, 64, 1⟩, kind := .plain } { il := .btrue, ty := ⟨true, 64, 1⟩, kind := .lit 0 } = true ∧
+    liveKeepsTy false { il := .btrue, ty := ⟨false, 64, 1⟩, kind := .plain } { il := .btrue, ty := ⟨true, 64, 1⟩, kind := .lit 0 } = false ∧
+    liveKeepsTy true { il := .btrue, ty := ⟨true, 32, 1⟩, kind := .plain } { il := .btrue, ty := ⟨false, 64, 1⟩, kind := .lit 1 } = false ∧
+    liveKeepsTy true { il := .btrue, ty := ⟨true, 64, 1⟩, kind := .plain } { il := .btrue, ty := ⟨true, 32, 1⟩, kind := .lit 1 } = true ∧
+    liveKeepsTy true { il := .btrue, ty := ⟨true, 16, 1⟩, kind := .plain } { il := .btrue, ty := ⟨true, 16, 1⟩, kind := .plain } = false := by
+  decide
+example : certifiedSem [.assign (.reg "RddV" .dst ⟨true, 64⟩) "=" (.tern (.lit 1 false "") (.reg "RsV" .src ⟨true, 32⟩) (.lit 1 false "ULL"))]
+    = false := by decide +kernel
+
+/-- NOT certified, and rightly so: `((16 != 0) ? sextract64(RsV, 0, 16) : 0LL)` with the 32-bit `RsV`.  The `?:` is fine
+    (both arms `int64_t`); what differs is the ARGUMENT: `sextract64` takes a `uint64_t`, the code zero-extends the signed
+    `RsV` (`CAST(64, IL_FALSE, …)`), C sign-extends it.  The macro is uninterpreted in the theorems (`MacroSem`), so the
+    two calls cannot be shown equal (they are, for the real `sextract64`, because only bits 0…15 are read). -/
+def fsxtn32 : List CStmt :=
+  [.assign (.reg "RdV" .dst ⟨true, 32⟩) "=" (.tern (.cmp "!=" (.lit 16 false "") (.lit 0 false ""))
+     (.macro "sextract64" [.reg "RsV" .src ⟨true, 32⟩, .lit 0 false "", .lit 16 false ""] ⟨true, 64⟩ [⟨false, 64⟩, ⟨true, 32⟩, ⟨true, 32⟩])
+     (.lit 0 false "LL"))]
+example : certifiedSem fsxtn32 = false ∧
+    CarveNsSem [] [.reg "RsV" .src ⟨true, 32⟩] [⟨false, 64⟩] = false ∧
+    ternSafeSem (.lit 1 false "") { il := .btrue, ty := ⟨false, 1, gBool⟩, kind := .boolLit true }
+      { il := .btrue, ty := ⟨true, 64, 1⟩, kind := .plain } { il := .btrue, ty := ⟨true, 64, 1⟩, kind := .lit 0 } = true := by
+  decide +kernel
+
+/-! an interpretation of `extract64` / `sextract64` (the theorems are stated for EVERY interpretation satisfying `MsOK`;
+    with `noMacros` a macro call is undefined in C, so the instances below need a defined one) -/
+
+/-- macros are told apart by their RzIL name, so that the C name and the RzIL name mean the same -/
+def xKey (name : String) : Nat :=
+  if macroRzName name == "EXTRACT64" then 1 else if macroRzName name == "SEXTRACT64" then 2 else 0
+
+/-- `extract64(v, s, l)` = bits `s … s+l-1` of `v`; `sextract64` sign-extends them from bit `l-1` -/
+def msX : MacroSem := fun name vs =>
+  match xKey name, vs with
+  | 1, [.bv _ v, .bv _ st, .bv _ l] => some (.bv 64 (BitVec.ofNat 64 ((v.toNat >>> st.toNat) % 2 ^ l.toNat)))
+  | 2, [.bv _ v, .bv _ st, .bv _ l] => some (.bv 64 ((BitVec.ofNat l.toNat (v.toNat >>> st.toNat)).signExtend 64))
+  | _, _ => none
+
+/-- the macros of the table that return a bit-vector, with the width -/
+def bvRows : List (String × Nat) :=
+  Gen.macroRows.filterMap (fun r => match r with | (n, _, some (.bv w), _) => some (n, w) | _ => none)
+
+theorem mem_bvRows {name : String} {w : Nat} (h : macroRetW name = some w) : (name, w) ∈ bvRows := by
+  unfold macroRetW at h
+  split at h
+  · next n rz w' ps hf =>
+    simp only [Option.some.injEq] at h
+    subst h
+    have hm := List.mem_of_find?_eq_some hf
+    have hn := List.find?_some hf
+    simp only [beq_iff_eq] at hn
+    subst hn
+    unfold bvRows
+    rw [List.mem_filterMap]
+    exact ⟨_, hm, rfl⟩
+  · cases h
+
+theorem bvRows_ok : bvRows.all (fun p => xKey (macroRzName p.1) == xKey p.1 && (xKey p.1 == 0 || p.2 == 64)) = true := by
+  decide +kernel
+
+theorem msOK_msX : MsOK msX := by
+  intro name w h
+  have hrow := List.all_eq_true.1 bvRows_ok _ (mem_bvRows h)
+  simp only [Bool.and_eq_true, Bool.or_eq_true, beq_iff_eq] at hrow
+  obtain ⟨hk, hw⟩ := hrow
+  refine ⟨fun vs => by unfold msX; rw [hk], fun vs v hv => ?_⟩
+  unfold msX at hv
+  split at hv
+  · next hkey =>
+    have : w = 64 := by rcases hw with h0 | h0; · rw [hkey] at h0; cases h0
+                        · exact h0
+    subst this
+    simp only [Option.some.injEq] at hv
+    exact ⟨_, hv.symm⟩
+  · next hkey =>
+    have : w = 64 := by rcases hw with h0 | h0; · rw [hkey] at h0; cases h0
+                        · exact h0
+    subst this
+    simp only [Option.some.injEq] at hv
+    exact ⟨_, hv.symm⟩
+  · cases hv
+
+/-- the interpretation also satisfies the low-bits assumption -/
+theorem msLow_msX : MsLow msX := by
+  intro name hname v v' ws wl s l h
+  have hraw := Sem.low_raw_eq h
+  simp only [lowMacros, List.mem_cons, List.not_mem_nil, or_false] at hname
+  rcases hname with rfl | rfl
+  · have hk : xKey (macroRzName "extract64") = 1 := by decide +kernel
+    simp only [msX, hk, hraw]
+  · have hk : xKey (macroRzName "sextract64") = 2 := by decide +kernel
+    simp only [msX, hk]
+    have : BitVec.ofNat l.toNat (v.toNat >>> s.toNat) = BitVec.ofNat l.toNat (v'.toNat >>> s.toNat) := by
+      apply BitVec.eq_of_toNat_eq
+      simp only [BitVec.toNat_ofNat]
+      exact hraw
+    rw [this]
+
+/-- every register `0x8234` (bit 15 set) -/
+def fxtn_state : MState := { (default : MState) with cur := fun _ => 0x8234 }
+
+/-- all hypotheses of `certifiedSem_correct` hold together for `fzxtn` from `fxtn_state` under `msX`; its conclusion
+    follows, and the EMITTED effect writes `extract64(0x8234, 0, 8) = 0x34` to `Rdd` -/
+example : ∃ eff σC' σIL', compileProgH Cfg.asCode fzxtn = .ok eff ∧ ExecCs msX fzxtn fxtn_state σC' ∧
+    ExecIL msX eff fxtn_state σIL' ∧ StRel σC' σIL' ∧ σIL'.written "Rdd_op" = true ∧ σIL'.new "Rdd_op" = 0x34 := by
+  obtain ⟨eff, hcomp⟩ := isOk_elim (x := compileProgH Cfg.asCode fzxtn) (by decide +kernel)
+  obtain ⟨σC', hC⟩ := isOk_elim (x := execCs msX 5 fzxtn fxtn_state) (by decide +kernel)
+  have hex : ExecCs msX fzxtn fxtn_state σC' := ExecCs_iff.2 ⟨5, hC⟩
+  obtain ⟨σIL', hx, hrel⟩ := Sem.certifiedSem_correct msOK_msX fzxtn_certified hcomp rfl (fun _ _ => rfl) hex
+  have hnew : finalNew "Rdd_op" (execCs msX 5 fzxtn fxtn_state) = some 0x34 := by decide +kernel
+  rw [hC] at hnew
+  simp only [finalNew] at hnew
+  split at hnew
+  · rename_i hw
+    refine ⟨eff, σC', σIL', hcomp, hex, hx, hrel, ?_, ?_⟩
+    · rw [← hrel.written]; exact hw
+    · rw [← hrel.new]; exact Option.some.inj hnew
+  · cases hnew
+
+/-- the same for `fsxtn` (`fSXTN(16, 64, RssV)`): the emitted effect writes the sign-extended half-word -/
+example : ∃ eff σC' σIL', compileProgH Cfg.asCode fsxtn = .ok eff ∧ ExecCs msX fsxtn fxtn_state σC' ∧
+    ExecIL msX eff fxtn_state σIL' ∧ StRel σC' σIL' ∧ σIL'.written "Rdd_op" = true ∧ σIL'.new "Rdd_op" = 0xffffffffffff8234 := by
+  obtain ⟨eff, hcomp⟩ := isOk_elim (x := compileProgH Cfg.asCode fsxtn) (by decide +kernel)
+  obtain ⟨σC', hC⟩ := isOk_elim (x := execCs msX 5 fsxtn fxtn_state) (by decide +kernel)
+  have hex : ExecCs msX fsxtn fxtn_state σC' := ExecCs_iff.2 ⟨5, hC⟩
+  obtain ⟨σIL', hx, hrel⟩ := Sem.certifiedSem_correct msOK_msX fsxtn_certified hcomp rfl (fun _ _ => rfl) hex
+  have hnew : finalNew "Rdd_op" (execCs msX 5 fsxtn fxtn_state) = some 0xffffffffffff8234 := by decide +kernel
+  rw [hC] at hnew
+  simp only [finalNew] at hnew
+  split at hnew
+  · rename_i hw
+    refine ⟨eff, σC', σIL', hcomp, hex, hx, hrel, ?_, ?_⟩
+    · rw [← hrel.written]; exact hw
+    · rw [← hrel.new]; exact Option.some.inj hnew
+  · cases hnew
+
+/-! #### `fSXTN` of a 32-bit operand: the certificate with the low-bits macro arguments (`certifiedSemX`, assumption `MsLow`) -/
+
+/-- `((16 != 0) ? sextract64(RsV, 0, 16) : 0LL)` with the 32-bit `RsV` is certified by `certifiedSemX` (not by
+    `certifiedSem`, see `fsxtn32` above): bits 0…15 are read, `RsV` is 32 bits wide -/
+theorem fsxtn32_certifiedX : certifiedSemX fsxtn32 = true := by decide +kernel
+example : lowBitsOf [] "sextract64" [.reg "RsV" .src ⟨true, 32⟩, .lit 0 false "", .lit 16 false ""] [⟨false, 64⟩, ⟨true, 32⟩, ⟨true, 32⟩]
+    = some 16 := by decide +kernel
+/-- reading above the width of the argument is NOT accepted (`sextract64(RsV, 0, 40)`, `sextract64(RsV, 20, 16)`), nor is a
+    non-constant length (`extract64(RsV, 0, uiV)`: the shipped `A4_bitspliti`), nor another macro -/
+example : CarveNSem [] (.macro "sextract64" [.reg "RsV" .src ⟨true, 32⟩, .lit 0 false "", .lit 40 false ""] ⟨true, 64⟩
+      [⟨false, 64⟩, ⟨true, 32⟩, ⟨true, 32⟩]) true = false ∧
+    CarveNSem [] (.macro "sextract64" [.reg "RsV" .src ⟨true, 32⟩, .lit 20 false "", .lit 16 false ""] ⟨true, 64⟩
+      [⟨false, 64⟩, ⟨true, 32⟩, ⟨true, 32⟩]) true = false ∧
+    CarveNSem [] (.macro "extract64" [.reg "RsV" .src ⟨true, 32⟩, .lit 0 false "", .imm "u" false] ⟨false, 64⟩
+      [⟨false, 64⟩, ⟨true, 32⟩, ⟨true, 32⟩]) true = false ∧
+    CarveNSem [] (.macro "deposit64" [.reg "RsV" .src ⟨true, 32⟩, .lit 0 false "", .lit 8 false "", .reg "RssV" .src ⟨true, 64⟩]
+      ⟨false, 64⟩ [⟨false, 64⟩, ⟨true, 32⟩, ⟨true, 32⟩, ⟨false, 64⟩]) true = false ∧
+    CarveNSem [] (.macro "sextract64" [.reg "RsV" .src ⟨true, 32⟩, .lit 0 false "", .lit 32 false ""] ⟨true, 64⟩
+      [⟨false, 64⟩, ⟨true, 32⟩, ⟨true, 32⟩]) true = true := by decide +kernel
+
+/-- the shipped `A4_psxthtnew`: `{ if ((PuN & 1)) { RdV = ((16 != 0) ? sextract64(RsV, 0, 16) : 0LL); } else { cancel_slot; } }` -/
+def a4_psxthtnew : List CStmt :=
+  [.ite (.bin "&" (.reg "PuN" .new ⟨true, 8⟩) (.lit 1 false ""))
+     [.assign (.reg "RdV" .dst ⟨true, 32⟩) "=" (.tern (.cmp "!=" (.lit 16 false "") (.lit 0 false ""))
+        (.macro "sextract64" [.reg "RsV" .src ⟨true, 32⟩, .lit 0 false "", .lit 16 false ""] ⟨true, 64⟩ [⟨false, 64⟩, ⟨true, 32⟩, ⟨true, 32⟩])
+        (.lit 0 false "LL"))]
+     (some [.skip "cancel_slot;"])]
+theorem a4_psxthtnew_certifiedX : certifiedSemX a4_psxthtnew = true := by decide +kernel
+example : certifiedSem a4_psxthtnew = false := by decide +kernel
+
+/-- every register `0xffff8234`: as a 32-bit signed value negative, so the code's zero-extension `0x00000000ffff8234` and
+    C's sign-extension `0xffffffffffff8234` of the macro argument DIFFER -/
+def fxtn32_state : MState := { (default : MState) with cur := fun _ => 0xffff8234 }
+
+/-- all hypotheses of `certifiedSemX_correct` hold together for `fsxtn32` from `fxtn32_state` under `msX` (`MsOK`, `MsLow`);
+    its conclusion follows, and the EMITTED effect writes the sign-extended half-word `0xffff8234` to `Rd` -/
+example : ∃ eff σC' σIL', compileProgH Cfg.asCode fsxtn32 = .ok eff ∧ ExecCs msX fsxtn32 fxtn32_state σC' ∧
+    ExecIL msX eff fxtn32_state σIL' ∧ StRel σC' σIL' ∧ σIL'.written "Rd_op" = true ∧ σIL'.new "Rd_op" = 0xffff8234 := by
+  obtain ⟨eff, hcomp⟩ := isOk_elim (x := compileProgH Cfg.asCode fsxtn32) (by decide +kernel)
+  obtain ⟨σC', hC⟩ := isOk_elim (x := execCs msX 5 fsxtn32 fxtn32_state) (by decide +kernel)
+  have hex : ExecCs msX fsxtn32 fxtn32_state σC' := ExecCs_iff.2 ⟨5, hC⟩
+  obtain ⟨σIL', hx, hrel⟩ := Sem.certifiedSemX_correct msOK_msX msLow_msX fsxtn32_certifiedX hcomp rfl (fun _ _ => rfl) hex
+  have hnew : finalNew "Rd_op" (execCs msX 5 fsxtn32 fxtn32_state) = some 0xffff8234 := by decide +kernel
+  rw [hC] at hnew
+  simp only [finalNew] at hnew
+  split at hnew
+  · rename_i hw
+    refine ⟨eff, σC', σIL', hcomp, hex, hx, hrel, ?_, ?_⟩
+    · rw [← hrel.written]; exact hw
+    · rw [← hrel.new]; exact Option.some.inj hnew
+  · cases hnew
+
+/-- `MsLow` is a genuine restriction: an interpretation of `sextract64` that reads the UPPER half of its first argument
+    does not satisfy it (and under such an interpretation the code's zero-extension and C's sign-extension of a negative
+    32-bit argument would give different results) -/
+def msAll : MacroSem := fun name vs =>
+  match xKey name, vs with
+  | 2, [.bv _ v, _, _] => some (.bv 64 (BitVec.ofNat 64 (v.toNat >>> 32)))
+  | _, _ => none
+example : ¬ MsLow msAll := by
+  intro h
+  have := h "sextract64" (by decide) (0 : BitVec 64) (BitVec.ofNat 64 (2 ^ 40)) 32 32 (0 : BitVec 32) (16 : BitVec 32)
+    (by
+      intro i hi
+      have hi' : i < 16 := hi
+      have e : (BitVec.ofNat 64 (2 ^ 40)) = (1#64 <<< 40) := by decide
+      rw [e]
+      simp only [BitVec.getLsbD_zero, BitVec.getLsbD_shiftLeft]
+      have : decide (i < 40) = true := by simp; omega
+      simp [this])
+  revert this
+  decide +kernel
+
+/-! #### an explicit / alias register as the target of a plain `=` (`lhsCarveSem`) -/
+
+/-- `{ P0 = ((RsV == RtV) ? 0xff : 0x00); ; }`: part 0 of the shipped `J4_cmpeq_tp0_jump_t` (the shape of every compound
+    compare-and-jump: 86 parts of the corpus).  `P0` is assigned, so the code would READ it through the `.new` value
+    (`assignedRegsReadNew`) — but the target of `=` is not read. -/
+def j4_cmpeq_tp0 : List CStmt :=
+  [.assign (.reg "P0" .explicit ⟨true, 8⟩) "=" (.tern (.cmp "==" (.reg "RsV" .src ⟨true, 32⟩) (.reg "RtV" .src ⟨true, 32⟩))
+     (.lit 255 true "") (.lit 0 true "")),
+   .skip ";"]
+theorem j4_cmpeq_tp0_certified : certifiedSem j4_cmpeq_tp0 = true := by decide +kernel
+/-- as a VALUE the assigned `P0` stays outside; as the target of `=` it is inside, as the target of `|=` it is not -/
+example : CarveESem ["P0_op"] (.reg "P0" .explicit ⟨true, 8⟩) = false ∧
+    lhsCarveSem ["P0_op"] "=" (.reg "P0" .explicit ⟨true, 8⟩) = true ∧
+    lhsCarveSem ["P0_op"] "|=" (.reg "P0" .explicit ⟨true, 8⟩) = false ∧
+    lhsCarveSem ["P0_op"] "=" (.reg "P0" .explicit ⟨true, 32⟩) = false := by decide +kernel
+/-- the two lowerings do compile the target differently (the read of it), and still emit effects with one meaning -/
+def readsNew : Except String CE → Option Bool
+  | .ok ce => (match ce.il with | .readReg _ b => some b | _ => none)
+  | .error _ => none
+example : readsNew (compileExpr ⟨["P0_op"], Cfg.asCode⟩ (.reg "P0" .explicit ⟨true, 8⟩)) = some true ∧
+    readsNew (compileExpr ⟨["P0_op"], Cfg.fixed⟩ (.reg "P0" .explicit ⟨true, 8⟩)) = some false := by decide +kernel
+/-- `{ P0 = RsV; RdV = P0; }` (the assigned register is READ: the listed finding `assigned-explicit-register-read-as-new`)
+    and `{ P0 |= RsV; }` are NOT certified -/
+example : certifiedSem [.assign (.reg "P0" .explicit ⟨true, 8⟩) "=" (.reg "RsV" .src ⟨true, 32⟩),
+    .assign (.reg "RdV" .dst ⟨true, 32⟩) "=" (.reg "P0" .explicit ⟨true, 8⟩)] = false ∧
+    certifiedSem [.assign (.reg "P0" .explicit ⟨true, 8⟩) "|=" (.reg "RsV" .src ⟨true, 32⟩)] = false := by decide +kernel
+
+/-- the shipped `J2_loop1i`: `{ riV; riV = (riV & (~(4 - 1))); HEX_REG_ALIAS_SA1 = (HEX_REG_ALIAS_PC + riV);
+    HEX_REG_ALIAS_LC1 = UiV; }` (alias registers as targets; the bare `riV;` in front of the assignment to `riV`) -/
+def j2_loop1i : List CStmt :=
+  [.exprstmt (.imm "r" true),
+   .assign (.imm "r" true) "=" (.bin "&" (.imm "r" true) (.un "~" (.bin "-" (.lit 4 false "") (.lit 1 false "")))),
+   .assign (.reg "HEX_REG_ALIAS_SA1" .alias ⟨false, 32⟩) "=" (.bin "+" (.reg "HEX_REG_ALIAS_PC" .pc ⟨false, 32⟩) (.imm "r" true)),
+   .assign (.reg "HEX_REG_ALIAS_LC1" .alias ⟨false, 32⟩) "=" (.imm "U" false)]
+theorem j2_loop1i_certified : certifiedSem j2_loop1i = true := by decide +kernel
+
+/-- all hypotheses of `certifiedSem_correct` hold together for `j4_cmpeq_tp0` from a state with equal registers; its
+    conclusion follows, and the EMITTED effect writes `0xff` to `P0` -/
+example : ∃ eff σC' σIL', compileProgH Cfg.asCode j4_cmpeq_tp0 = .ok eff ∧ ExecCs noMacros j4_cmpeq_tp0 l2_state σC' ∧
+    ExecIL noMacros eff l2_state σIL' ∧ StRel σC' σIL' ∧ σIL'.written "P0_op" = true ∧ σIL'.new "P0_op" = 0xff := by
+  obtain ⟨eff, hcomp⟩ := isOk_elim (x := compileProgH Cfg.asCode j4_cmpeq_tp0) (by decide +kernel)
+  obtain ⟨σC', hC⟩ := isOk_elim (x := execCs noMacros 5 j4_cmpeq_tp0 l2_state) (by decide +kernel)
+  have hex : ExecCs noMacros j4_cmpeq_tp0 l2_state σC' := ExecCs_iff.2 ⟨5, hC⟩
+  obtain ⟨σIL', hx, hrel⟩ := Sem.certifiedSem_correct T3.msOK_trivial j4_cmpeq_tp0_certified hcomp rfl (fun _ _ => rfl) hex
+  have hnew : finalNew "P0_op" (execCs noMacros 5 j4_cmpeq_tp0 l2_state) = some 0xff := by decide +kernel
+  rw [hC] at hnew
+  simp only [finalNew] at hnew
+  split at hnew
+  · rename_i hw
+    refine ⟨eff, σC', σIL', hcomp, hex, hx, hrel, ?_, ?_⟩
+    · rw [← hrel.written]; exact hw
+    · rw [← hrel.new]; exact Option.some.inj hnew
+  · cases hnew
 
 /-- non-vacuity of the expression- and statement-level theorems (`sortOK_fixed`, `expr_sem`, `cond_sem`, `decl_sem`,
     `assign_sem`, `store_sem`, `jump_sem`, `stmt_sem_both`): a consistent context, a typed state, and carved,
